@@ -382,9 +382,9 @@ func main() {
 		memG := c.MemTree
 		if r.Quick() {
 			if memG {
-				return harness{c, 2, 7, 3}
+				return harness{c, 2, 7, 4}
 			}
-			return harness{c, 2, 7, 3}
+			return harness{c, 2, 7, 4}
 		}
 		return harness{c, 3, 8, 4}
 	}
